@@ -97,7 +97,88 @@ def replay(obligation, extra):
         names = [e.name for e in run.events]
         if run.exception or names != ['connecting', 'connect_fail']:
             return dict(found=True, input='connect fails with %s' % label, expected='Connecting, ConnectFail', observed='%r %s' % (names, run.exception))
+    # "a refused connect on every resolved address (each address is tried before giving up)": the REAL _connect_sock over a
+    # scripted resolver - every sequence of per-address outcomes up to 3 addresses
+    import itertools
+    for n in (1, 2, 3):
+        for outcomes in itertools.product(('create-fails', 'refused', 'accepts'), repeat=n):
+            tried += 1
+            err, names = multi_address(outcomes)
+            if err:
+                return dict(found=True, input='host resolves to %d addresses with outcomes %r' % (n, list(outcomes)),
+                            expected='each address tried in order until one accepts; ConnectFail only if none does; every other socket closed',
+                            observed=err, events=names)
     return dict(found=False, tried='%d fault injections' % tried)
+
+
+def multi_address(outcomes):
+    """drive WebSocket.connect() through the real _connect/_connect_sock with lomond.session's socket module replaced"""
+    import types
+    import socket as real
+    import lomond.session as S
+    from lomond.websocket import WebSocket
+    made = []
+
+    class Sock(harness.FakeSocket):
+        def __init__(self, idx):
+            harness.FakeSocket.__init__(self, reads=[b''])
+            self.idx, self.connected = idx, False
+
+        def connect(self, sa):
+            if outcomes[sa[1]] == 'refused':
+                raise real.error(111, 'Connection refused')
+            self.connected = True
+
+    def fake_socket(af, socktype=None, proto=None):
+        idx = af - 1000
+        if outcomes[idx] == 'create-fails':
+            raise real.error(97, 'Address family not supported')
+        sk = Sock(idx)
+        made.append(sk)
+        return sk
+    fake = types.SimpleNamespace(**{k: getattr(real, k) for k in dir(real) if not k.startswith('__')})
+    fake.getaddrinfo = lambda host, port, *a: [(1000 + i, 1, 6, '', ('10.0.0.%d' % i, i)) for i in range(len(outcomes))]
+    fake.socket = fake_socket
+
+    class Sess(S.WebsocketSession):
+        _selector_cls = harness.FakeSelector
+    saved = S.socket
+    S.socket = fake
+    events, exc = [], None
+    try:
+        try:
+            for ev in WebSocket('ws://example.com/').connect(session_class=Sess, ping_rate=0):
+                events.append(ev)
+                if len(events) > 50:
+                    break
+        except Exception as e:       # noqa
+            exc = repr(e)
+    finally:
+        S.socket = saved
+    names = [e.name for e in events]
+    if exc:
+        return 'exception escaped the iterator: %s' % exc, names
+    first_ok = next((i for i, o in enumerate(outcomes) if o == 'accepts'), None)
+    if first_ok is None:
+        if names != ['connecting', 'connect_fail']:
+            return 'expected Connecting, ConnectFail, got %r' % names, names
+        if any(not sk.closed for sk in made):
+            return 'a socket whose connect failed was left open', names
+        tried_idx = [sk.idx for sk in made]
+        want = [i for i, o in enumerate(outcomes) if o != 'create-fails']
+        if tried_idx != want:
+            return 'addresses tried %r, expected %r' % (tried_idx, want), names
+        return None, names
+    if 'connected' not in names:
+        return 'gave up (%r) although address #%d accepted the connection' % (names, first_ok), names
+    for sk in made:
+        if sk.idx != first_ok and not sk.closed:
+            return 'socket of address #%d left open' % sk.idx, names
+    if made and made[-1].idx != first_ok:
+        return 'went on to address #%d after #%d had accepted' % (made[-1].idx, first_ok), names
+    if not made[-1].closed:
+        return 'connected socket not closed after the terminal event', names
+    return None, names
 
 
 def known_finding(kf):
